@@ -501,7 +501,7 @@ def async_outcomes_oracle(ctx, n):
             if ending == 'eof':
                 end()
             try:
-                out['idx'] = await c.expect_exact(list(pats), timeout=2 if ending == 'eof' else 0.2, async_=True)
+                out['idx'] = await c.expect_exact(list(pats), timeout=10 if ending == 'eof' else 0.2, async_=True)
             except pexpect.EOF:
                 out['exc'] = 'EOF'
             except pexpect.TIMEOUT:
